@@ -32,7 +32,7 @@ func init() {
 		Rule: "S1 (API seam, ALL interleavings): every assignment of operation sequences over {GetSymHash(k1), GetSymHash(k2), SymHash2Str(h1), SymHash2Str(h2), env.Items()} to 2 threads x 2 ops (thorough also 2x3 and 3x1, 3x2) on two fresh keys forced to collide; " +
 			"S2 (real evaluations, deviation bound 1, thorough 2): 2-3 Evals in separate scopes of one interpreter that intern the same new identifiers, call evalEnv, decode JSON and compare/hash/print the strings the symbol table hands out; " +
 			"S3 (start-up loaders, bound 1, thorough 2): pairs of the real readNativeCode bodies from the table state that exists when the start-up goroutines are spawned; " +
-			"the tables are restored to a snapshot before every execution; oracle: no happens-before-unordered conflicting accesses on symHashTable/strTable nor on any field of an object-package struct that some statement assigns after construction (every read/write of such a field is recorded per object; at present Env.Store, PanErr.StackTrace, PanFunc.Env, PanObj.Keys/Pairs/PrivateKeys/zero; a new lazily written field is picked up automatically), SymHash2Str returns what the thread interned, Items() never panics, no deadlock, same final tables and results in every schedule; " +
+			"the tables are restored to a snapshot before every execution; oracle: no happens-before-unordered conflicting accesses on symHashTable/strTable nor on any package-level variable that a function other than init assigns, nor on any field of an object-package struct that some statement assigns after construction (every read/write of such a field is recorded per object; at present Env.Store, PanErr.StackTrace, PanFunc.Env, PanObj.Keys/Pairs/PrivateKeys/zero; a new lazily written field is picked up automatically), SymHash2Str returns what the thread interned, Items() never panics, no deadlock, same final tables and results in every schedule; " +
 			"states = schedules executed, transitions = scheduling steps; non-trivial = schedule containing a cross-thread conflicting access pair; distinct = distinct (scenario, choice vector)",
 		Assumptions: []string{
 			"memory model: a data-race-free Go program is sequentially consistent; races are what is detected",
@@ -67,10 +67,16 @@ func newWorld(c *core.Ctx) *world {
 		return nil
 	}
 	a, b := object.VerifSymTableSnapshot()
+	if names := verifrt.SnapshotGlobals(); len(names) > 0 {
+		c.Note("other_function_written_package_variables(restored_before_every_execution)", strings.Join(names, ","))
+	}
 	return &world{c: c, snapA: a, snapB: b}
 }
 
-func (w *world) reset() { object.VerifResetSymTables(w.snapA, w.snapB) }
+func (w *world) reset() {
+	object.VerifResetSymTables(w.snapA, w.snapB)
+	verifrt.RestoreGlobals()
+}
 
 func verifrtChoose(site string, n int) int { return verifrt.Choose(site, n) }
 
@@ -444,6 +450,8 @@ var s2programs = []string{
 	"\"zz_c20_a := 1; zz_c20_c := 2\".evalEnv.keys",
 	"JSON.dec(`{\"zz_c20_a\": 1, \"zz_c20_d\": 2}`).keys",
 	"{zz_c20_b: 1, zz_c20_e: 2}.keys",
+	// a call wider than any earlier call of the process (arity-indexed interpreter state, argument variables \9, \10 ...)
+	"{|a, b, c, d, e, f, g, h, i, j, k, l| [\\1, \\9, \\10, \\12, \\0.len]}(1, 2, 3, 4, 5, 6, 7, 8, 9, 10, 11, 12)",
 	// strings handed out by the interpreter-wide symbol table used as values: compared, hashed as map keys, printed
 	"k := \"zz_c20_a := 1; zz_c20_c := 2\".evalEnv.keys; [k[0] == \"zz_c20_a\", %{k[1]: 1}[k[1]], k[0] + k[1], k.S]",
 }
